@@ -11,7 +11,7 @@ CONSTANTS
   Ahead = 2
   Confirm = 2
   MaxRound = 2
-  MaxToc = 1
+  MaxToc = 0
   MaxBlocks = 1
   ProposalKinds <- MCKindsQuick
   MaxDeliver = 3
